@@ -75,14 +75,15 @@ SCRIPT = '''#!/bin/sh
 if [ -n "$DDV_LOG" ]; then printf '%s\\n' "{tag} $*" >> "$DDV_LOG"; fi
 for last; do :; done
 . "$last"
+if [ -n "${{{s}}}" ]; then sleep "${{{s}}}"; fi
 printf '%s' "${o}"; printf '%s' "${r}" >&2; exit ${e}
 '''
 
 
 def write_script(path, tag):
-    v = ('O', 'R', 'E') if tag == 'main' else ('O2', 'R2', 'E2')
+    v = ('O', 'R', 'E', 'S') if tag == 'main' else ('O2', 'R2', 'E2', 'S2')
     with open(path, 'w') as f:
-        f.write(SCRIPT.format(tag=tag, o=v[0], r=v[1], e=v[2]))
+        f.write(SCRIPT.format(tag=tag, o=v[0], r=v[1], e=v[2], s=v[3]))
     os.chmod(path, os.stat(path).st_mode | stat.S_IEXEC | stat.S_IXGRP
              | stat.S_IXOTH)
 
@@ -293,8 +294,66 @@ def part_c(unit):
     return part
 
 
+def part_d(unit):
+    """No time limit configured: the limits ddSMT derives from the golden
+    runs must let a candidate through that reproduces both golden runs (one
+    of the two commands takes 2.5 s, the other is instant)."""
+    from ddsmt import checker
+    _, slow = unit
+    part = common.part_result()
+    with common.scratch_dir('ddv-c09-') as d:
+        main_s = os.path.join(d, 'cmd.sh')
+        cc_s = os.path.join(d, 'cc.sh')
+        write_script(main_s, 'main')
+        write_script(cc_s, 'cc')
+        infile = os.path.join(d, 'in.smt2')
+        delay = 'S=2.5\n' if slow == 'main' else 'S2=2.5\n'
+
+        def spec(path, main, cc):
+            write_spec(path, main, cc)
+            with open(path, 'a') as f:
+                f.write(delay)
+
+        spec(infile, GOLDEN, GOLDEN)
+        os.environ.pop('DDV_LOG', None)
+        argv = ['ddsmt', '-c', cc_s, infile, os.path.join(d, 'out.smt2'),
+                main_s]
+        common.set_args(argv)
+        with common.quiet():
+            checker.do_golden_runs()
+        cand = os.path.join(d, 'cand.smt2')
+        for mo, co, exp in ((GOLDEN, GOLDEN, True),
+                            (GOLDEN, (0, 'xAy', 'xAy'), False),
+                            ((0, 'xAy', 'xAy'), GOLDEN, False)):
+            spec(cand, mo, co)
+            common.pcount(part, 'evaluations')
+            common.pcount(part, 'distinct_nontrivial')
+            common.pcount(part, 'check_calls_with_derived_time_limits')
+            got = checker.check(cand)
+            for _ in range(2):
+                # machine load can push an honest run over the derived
+                # limit; only a verdict that repeats counts
+                if bool(got) == exp or not exp:
+                    break
+                common.pcount(part, 'retries_under_load')
+                got = checker.check(cand)
+            if bool(got) != exp:
+                from ddsmt import options
+                common.pviolation(
+                    part, f'derived-limits|slow-{slow}|{exp}', {
+                        'brief': f'no time limit configured, {slow} command '
+                                 f'takes 2.5 s: candidate main={mo} cc={co} '
+                                 f'(golden {GOLDEN} for both) gets verdict '
+                                 f'{got}, rule says {exp}; derived limits: '
+                                 f'timeout={options.args().timeout} '
+                                 f'timeout_cc={options.args().timeout_cc}',
+                        'part': 'd', 'unit': list(unit)})
+    return part
+
+
 def run_unit(unit):
-    return {'a': part_a, 'b': part_b, 'c': part_c}[unit[0]](unit)
+    return {'a': part_a, 'b': part_b, 'c': part_c,
+            'd': part_d}[unit[0]](unit)
 
 
 def plan(tier):
@@ -318,6 +377,7 @@ def plan(tier):
             for cc_args in (None, 0, 2):
                 units.append(('c', inname, nargs, cc_args, False))
         units.append(('c', inname, 1, 0, True))
+    units = [('d', 'main'), ('d', 'cc')] + units
     return units
 
 
@@ -337,7 +397,9 @@ def main(tier):
         '--unchecked, x 18 candidate outcome classes per command (exit '
         'same/differs, each stream equal / contains A / lacks A); (c) argv '
         'for 4 input extensions x 0..2 extra arguments x cross-check with '
-        'arguments. distinct_nontrivial = cases whose expected verdict '
+        'arguments; (d) without configured time limits and one of the two '
+        'commands taking 2.5 s, a candidate reproducing both golden runs is '
+        'accepted, others are not. distinct_nontrivial = cases whose expected verdict '
         'differs from plain equality with the golden outcome (a, b) / '
         'every argv case (c)')
     rep.set('exhaustive', True)
